@@ -339,10 +339,10 @@ def classify_stall(txt):
         for i, l in enumerate(lines):
             m = l.strip()
             if m.startswith("/") and ".go:" in m:
-                if "/src/runtime/" in m or "/src/sync/" in m or "/src/internal/" in m:
-                    continue
+                if "/golang.org/toolchain@" in m or "/go/src/" in m or "/veriftools/go" in m or "/pkg/mod/" in m:
+                    continue  # the Go distribution and third-party modules: look further up this goroutine's stack
                 if any(h in m for h in HARNESS_MARKS):
-                    break
+                    break  # the wait is the harness's own (its goroutines contending for a pipe, say)
                 fn = lines[i - 1].strip().rsplit("(", 1)[0] if i > 0 else ""
                 return "a goroutine of the code under test waits for a lock that is held across an operation that never completes (%s at %s); the execution cannot come to rest" % (fn.split("/")[-1], m.split(" ")[0].split("/")[-1])
     return None
